@@ -200,6 +200,8 @@ func init() {
 			guard(r, func() { foundation(r) })
 			guard(r, func() { ruleFootprint(r, "E.footprint", footSel("(*column.Txn).With", "(*column.Txn).Union", "(*column.Txn).Count", "(*column.Txn).Range", "(*column.Txn).Ascend", "(*column.Txn).DeleteAt", "(*column.Txn).DeleteAll", "(column.rdNumber[T])."), 12) })
 			guard(r, func() { ruleExtremeFold(r) })
+			guard(r, func() { ruleAccumulatorsFromZero(r) })
+			guard(r, func() { ruleInitializeFirst(r) })
 		}})
 	register(&PropSpec{ID: "C05",
 		Explanation: "Buffer/commit/log round-trip — structural skeleton only (most of this property is about byte values and is not decidable statically). (C05.flags) writers and reader agree on header flags, size tags and payload widths, decided per arm; (C05.varint) writer loop and the reader's five stages agree; (C05.header) block headers written on block change, reader restarts the offset chain from them; (C05.copy) clones and resets cover every field, clones share no slice; (C01.width) Put/read/Swap widths per kind, swap retags as Put; (C03.order) replay never appends to the buffer." + staticNote,
@@ -290,6 +292,7 @@ func init() {
 			guard(r, func() { ruleL5id(r) })
 			guard(r, func() { ruleL5emit(r) })
 			guard(r, func() { ruleReadChunk(r) })
+			guard(r, func() { ruleRecorderInstalled(r) }) // no recorder, no commits in the snapshot
 			guard(r, func() { ruleSnapshotOrder(r) })
 			guard(r, func() { ruleRestoreGuard(r) })
 			guard(r, func() { ruleIsolation(r) })
@@ -393,6 +396,7 @@ func init() {
 			// "block states plus a prefix of whole commits": the id written with a block is the one read
 			// with it, else a cut between two recorded commits replays the older over a block that holds the newer
 			guard(r, func() { ruleReadChunk(r) })
+			guard(r, func() { ruleStateVersion(r) })
 		}})
 	register(&PropSpec{ID: "C14",
 		Explanation: "A failed snapshot reports the error and leaves the collection usable — structural part. (C14.pair) must-pass-through on Snapshot's flow graph: after the recorder was opened every exit uninstalls it, closes the temporary log and removes its file; losing the installation race cleans up; (C14.err) error-flow: no error on the state-writing path is discarded." + staticNote,
@@ -403,6 +407,7 @@ func init() {
 			ruleErrorFlow(r, "C14.err", "no error on the snapshot write path (state writer and its closures, buffer serialisation, log copy, recorder open) is discarded", 8,
 				[]string{"(*column.Collection).Snapshot", "(*column.Collection).writeState", "(*commit.Log).Copy", "(*commit.Buffer).WriteTo", "(*column.Collection).recorderOpen"}, c14Exceptions)
 			guard(r, func() { ruleFileHandles(r) })
+			guard(r, func() { ruleRecorderInstalled(r) })
 			guard(r, func() { ruleStateFlush(r) })
 			guard(r, func() { ruleFootprint(r, "E.footprint", footSel("(*column.Collection).Snapshot"), 1) })
 			guard(r, func() { ruleL0(r) }) // "leaves the collection usable": a latch leaked on an error exit hangs every later commit to the block
@@ -447,6 +452,7 @@ func init() {
 			guard(r, func() { foundation(r) })
 			guard(r, func() { ruleFootprint(r, "E.footprint", footSel("(*column.Txn).Ascend", "(*column.Collection).CreateSortIndex", "(*column.Collection).Query"), 3) })
 			guard(r, func() { ruleStorageArms(r) }) // the sorted index sees a string merge only through the Put that Swap* rewrites it into
+			guard(r, func() { ruleInitializeFirst(r) })
 		}})
 	register(&PropSpec{ID: "C17",
 		Explanation: "Rows expire only after their deadline — structural part only (all timing is not applicable). (C17.guard) edge-dominance in the cleanup: DeleteAt(row) only under ok ∧ now.After(deadline); ExpiresAt/TTL report a deadline only when stored and non-zero; selection With(expire); (C17.write) writers store now+ttl or 0, Extend is a queued merge; (C17.wiring) expire column created at construction, one cleanup goroutine with the configured interval that stops on close; (C09.queue) merge accessors queue deltas." + staticNote,
